@@ -769,3 +769,90 @@ Section Ordered.
     nra. Qed.
 End Ordered.
 
+
+(* ====================================================================================== *)
+(* Part 4 : the executed instance (Qc) is the restriction of the real one                  *)
+(* ====================================================================================== *)
+Section QcToR.
+  Local Open Scope R_scope.
+  Definition q2r (x : Qc) : R := Q2R x.
+
+  Lemma q2r_red (q : Q) : Q2R (Qred q) = Q2R q.
+  Proof. apply Qeq_eqR, Qred_correct. Qed.
+  Lemma this_Q2Qc (q : Q) : this (Q2Qc q) = Qred q.
+  Proof. reflexivity. Qed.
+  Lemma q2r_add a b : q2r (a + b)%Qc = q2r a + q2r b.
+  Proof. unfold q2r, Qcplus. now rewrite this_Q2Qc, q2r_red, Q2R_plus. Qed.
+  Lemma q2r_sub a b : q2r (a - b)%Qc = q2r a - q2r b.
+  Proof. unfold q2r, Qcminus, Qcplus, Qcopp. rewrite this_Q2Qc, q2r_red, Q2R_plus, this_Q2Qc, q2r_red, Q2R_opp. ring. Qed.
+  Lemma q2r_mul a b : q2r (a * b)%Qc = q2r a * q2r b.
+  Proof. unfold q2r, Qcmult. now rewrite this_Q2Qc, q2r_red, Q2R_mult. Qed.
+  Lemma q2r_0 : q2r 0%Qc = 0.
+  Proof. unfold q2r. simpl. unfold Q2R. simpl. lra. Qed.
+  Lemma q2r_inj a b : q2r a = q2r b -> a = b.
+  Proof. unfold q2r. intros Hq. apply Qc_is_canon. now apply eqR_Qeq. Qed.
+  Lemma q2r_div a b : q2r (a / b)%Qc = q2r a / q2r b.
+  Proof. unfold Qcdiv. rewrite q2r_mul. unfold Rdiv. f_equal.
+    destruct (Qc_eq_dec b 0%Qc) as [->|Hb].
+    - replace (/ 0)%Qc with 0%Qc by (apply Qc_is_canon; reflexivity). rewrite q2r_0. now rewrite Rinv_0.
+    - unfold q2r, Qcinv. rewrite this_Q2Qc, q2r_red. apply Q2R_inv. intros Hq. apply Hb. apply Qc_is_canon. exact Hq. Qed.
+  Lemma q2r_ltb a b : rltb (q2r a) (q2r b) = qltb a b.
+  Proof. destruct (qltb a b) eqn:E.
+    - apply rltb_lt. apply qltb_lt in E. now apply Qlt_Rlt.
+    - apply rltb_false. intros Hlt. apply Rlt_Qlt in Hlt. assert (qltb a b = true) by now apply qltb_lt. congruence. Qed.
+  Lemma q2r_leb a b : rleb (q2r a) (q2r b) = qleb a b.
+  Proof. destruct (qleb a b) eqn:E.
+    - apply rleb_le. apply qleb_le in E. now apply Qle_Rle.
+    - apply rleb_false. intros Hle. apply Rle_Qle in Hle. assert (qleb a b = true) by now apply qleb_le. congruence. Qed.
+  Lemma q2r_eqb a b : reqb (q2r a) (q2r b) = Qc_eq_bool a b.
+  Proof. unfold Qc_eq_bool. destruct (Qc_eq_dec a b) as [->|Hn].
+    - now apply reqb_true.
+    - unfold reqb. destruct (Req_EM_T (q2r a) (q2r b)) as [He|]; auto. apply q2r_inj in He. contradiction. Qed.
+
+  Lemma interp_seg_q2r x : forall xp fp,
+    q2r (@interp_seg QcNum x xp fp) = @interp_seg RNum (q2r x) (map q2r xp) (map q2r fp).
+  Proof. induction xp as [|x0 xt IH]; intros [|f0 ft]; try (simpl; apply q2r_0).
+    destruct xt as [|x1 xt']; destruct ft as [|f1 ft']; try reflexivity.
+    specialize (IH (f1 :: ft')).
+    change (@interp_seg QcNum x (x0 :: x1 :: xt') (f0 :: f1 :: ft'))
+      with (if qleb x1 x then @interp_seg QcNum x (x1 :: xt') (f1 :: ft')
+            else if Qc_eq_bool x0 x then f0 else ((f1 - f0) / (x1 - x0) * (x - x0) + f0)%Qc).
+    change (@interp_seg RNum (q2r x) (map q2r (x0 :: x1 :: xt')) (map q2r (f0 :: f1 :: ft')))
+      with (if rleb (q2r x1) (q2r x) then @interp_seg RNum (q2r x) (map q2r (x1 :: xt')) (map q2r (f1 :: ft'))
+            else if reqb (q2r x0) (q2r x) then q2r f0 else (q2r f1 - q2r f0) / (q2r x1 - q2r x0) * (q2r x - q2r x0) + q2r f0).
+    rewrite q2r_leb, q2r_eqb. destruct (qleb x1 x); [exact IH|]. destruct (Qc_eq_bool x0 x); [reflexivity|].
+    now rewrite q2r_add, q2r_mul, q2r_div, !q2r_sub. Qed.
+
+  Lemma last_map {A B} (f : A -> B) l d : last (map f l) (f d) = f (last l d).
+  Proof. induction l as [|a t IH]; simpl; auto. destruct t; simpl in *; auto. Qed.
+  Lemma hd_map {A B} (f : A -> B) l d : hd (f d) (map f l) = f (hd d l).
+  Proof. now destruct l. Qed.
+
+  (* numpy.interp evaluated on the rationals handed over by the harness is numpy.interp of the real-number model *)
+  Theorem np_interp_q2r x xp fp :
+    option_map q2r (@np_interp QcNum x xp fp) = @np_interp RNum (q2r x) (map q2r xp) (map q2r fp).
+  Proof. destruct xp as [|x0 xt]; [reflexivity|].
+    rewrite (np_interp_unfold QcNum) by discriminate. rewrite (np_interp_unfold RNum) by discriminate.
+    rewrite !map_length. change (V QcNum) with Qc in *. change (V RNum) with R. destruct (negb (Nat.eqb (length (x0 :: xt)) (length fp))); [reflexivity|].
+    cbn [nltb n0 QcNum RNum]. rewrite <- q2r_0. rewrite !last_map, !hd_map, !q2r_ltb.
+    destruct (qltb (last (x0 :: xt) 0%Qc) x); [reflexivity|]. destruct (qltb x (hd 0%Qc (x0 :: xt))); [reflexivity|].
+    cbn [option_map]. f_equal. apply interp_seg_q2r. Qed.
+  Lemma SS_map_q2r l : StronglySorted (fun x y : Qc => (y < x)%Qc) l -> StronglySorted Rgt (map q2r l).
+  Proof. induction 1 as [|a t Ht IH Ha]; simpl; constructor; auto.
+    rewrite Forall_forall in *. intros y Hy. apply in_map_iff in Hy. destruct Hy as (z & <- & Hz).
+    specialize (Ha z Hz). unfold Rgt, q2r. now apply Qlt_Rlt. Qed.
+
+  (* hence the crossing-cell theorem holds for the values computed by vm_compute in the correspondence *)
+  Theorem grid_limit_cell_executed (level : Qc) c1 c2 s1 s2 (ca cb a b : Qc) :
+    length c1 = length s1 -> length c2 = length s2 ->
+    StronglySorted (fun x y : Qc => (y < x)%Qc) (c1 ++ ca :: cb :: c2) -> (cb <= level)%Qc -> (level < ca)%Qc ->
+    option_map q2r (@np_interp QcNum level (rev (c1 ++ ca :: cb :: c2)) (rev (s1 ++ a :: b :: s2)))
+    = Some (chord_cross (q2r a) (q2r ca) (q2r b) (q2r cb) (q2r level)).
+  Proof. intros Hl1 Hl2 Hs H1 H2. rewrite np_interp_q2r, !map_rev.
+    change (grid_limit (q2r level) (map q2r (c1 ++ ca :: cb :: c2)) (map q2r (s1 ++ a :: b :: s2))
+            = Some (chord_cross (q2r a) (q2r ca) (q2r b) (q2r cb) (q2r level))).
+    rewrite !map_app. simpl map. apply grid_limit_cell; try (rewrite !map_length; auto).
+    - apply SS_map_q2r in Hs. rewrite map_app in Hs. exact Hs.
+    - split; [now apply Qle_Rle|now apply Qlt_Rlt]. Qed.
+End QcToR.
+
